@@ -196,6 +196,15 @@ CHECKS["C23"] = ("model_checking",
     "Trusted: TLC (Distribution.tla); the ILP models are solved by PuLP's CBC (glpsol is absent; the harness replaces the module attribute GLPK_CMD). The distribute "
     "command line and the SECP-specific methods are not exercised. Three known findings (hints ignored by all methods but adhoc; hosting cost 0 as pin in gh_cgdp / ilp_fgdp).",
     "DESIGN.md section 4 C23")
+
+CHECKS["C24"] = ("model_checking",
+    "results of oilp_cgdp and ilp_fgdp on TLC-drawn tiny instances compared by TLC with the minimum of the method's cost model over all feasible mappings (Judge_C24)",
+    "TLC draws tiny DCOPs (Gen_Dcop, 6 shapes, as constraints hyper-graph and factor graph) and agent sets (Gen_C25: 2 (quick) / 2-3 agents, capacities tight to ample, "
+    "hosting costs over a non-zero default with and without explicit zeros that pin computations, routes); the real methods run with PuLP's CBC; for every result TLC "
+    "enumerates all |agents|^|computations| mappings, keeps those satisfying the method's hard rules (capacity, hosted once, zero-cost pinning, ilp_fgdp: every agent hosts "
+    "something) and checks that the result is feasible and of minimal cost, that 'impossible' is only declared when no mapping is feasible, and that the method's own "
+    "distribution_cost equals the cost model on its result.",
+    "Trusted: TLC (Judge_C24), CBC solving the models to optimality, the numeric tables read through the methods' own helper functions.", "DESIGN.md section 4 C24")
 NOT_YET = "check not built yet in this snapshot (work in progress, see DESIGN.md section 9)"
 
 fix_commits = subprocess.run(["git", "-C", "/repo", "log", "--format=%h %s", "aeaae91..HEAD"], capture_output=True, text=True).stdout.splitlines()
